@@ -41,6 +41,7 @@ type Params struct {
 	Reward                                   uint64
 	GenSC, GenSF                             []AbsOut
 	TaxForkH, ProofForkH                     uint64 // 0: post-fork rules from genesis
+	DevH, DevLock                            uint64 // developer-address fork (0: none) and the time lock of the new address's unlock conditions
 	Keyring                                  *Keyring `json:"-"` // optional: a keyring with custom addresses
 }
 
@@ -201,7 +202,7 @@ type Keyring struct {
 // NewKeyring derives deterministic keys for the given names.
 func NewKeyring() *Keyring {
 	k := &Keyring{sk: map[string]types.PrivateKey{}, names: map[types.Address]string{}, Custom: map[string]types.SpendPolicy{}, CustomUC: map[string]types.UnlockConditions{}}
-	for i, n := range []string{"A", "B", "C", "F", "M", "R", "H", "X", "Y", "Z"} {
+	for i, n := range []string{"A", "B", "C", "F", "M", "R", "H", "X", "Y", "Z", "D", "N"} {
 		seed := make([]byte, 32)
 		seed[0] = byte(i + 1)
 		seed[31] = 0x5a
@@ -328,6 +329,17 @@ func Network(p Params, k *Keyring) *consensus.Network {
 		MaturityDelay:   p.MatDelay,
 	}
 	n.HardforkDevAddr.Height = 1 << 40
+	if p.DevH > 0 {
+		// outputs of the old developer address "D" become spendable with the (time-locked) conditions of key "N"
+		uc := types.StandardUnlockConditions(k.PK("N"))
+		uc.Timelock = p.DevLock
+		k.mu.Lock()
+		k.CustomUC["N"] = uc
+		k.mu.Unlock()
+		n.HardforkDevAddr.Height = p.DevH
+		n.HardforkDevAddr.OldAddress = k.Addr("D")
+		n.HardforkDevAddr.NewAddress = uc.UnlockHash()
+	}
 	n.HardforkTax.Height = p.TaxForkH
 	n.HardforkStorageProof.Height = p.ProofForkH
 	n.HardforkOak.Height = 1 << 40
